@@ -368,7 +368,7 @@ def unjson_model(c, jm):
         return x
 
     out = {}
-    for k, sort in c.params.items():
+    for k, sort in list(c.params.items()) + list(c.ghosts.items()):
         out[k] = reshape(sort, un(jm.get(k)))
     return out
 
